@@ -92,6 +92,13 @@ func (k *Keeper) setOperatorConsKeyForChainID(
 		}
 	}
 	k.setOperatorConsKeyForChainIDUnchecked(ctx, opAccAddr, consAddr, chainID, bz)
+	if found && alreadyRecorded {
+		// the key being replaced was itself set within this epoch (a previous key is already
+		// recorded for it), so it never made it to the validator set and the replacement hook
+		// is not called for it: nothing would ever prune its reverse lookup. release it now,
+		// otherwise the address stays "in use" forever.
+		k.DeleteOperatorAddressForChainIDAndConsAddr(ctx, chainID, prevKey.ToConsAddr())
+	}
 	// only call the hooks if this is not genesis
 	if !genesis {
 		if found {
